@@ -113,6 +113,9 @@ def run(ctx, w):
     # "row < rows and col <= cols": every value handed to the cursor setters is bounded (C05.V9/V10)
     c05.addressing_rules(ctx, w, S, R)
     shared.invariant_rule(ctx, w, S, R, "R11")
+    # the buffer's own geometry invariants across a resize (lines >= rows, every line `cols` wide, last line unmarked, cursor inside)
+    from rules import c10 as _c10
+    _c10.resize_rule(ctx, w, S, "R12")
     # "changed-line indices ... all smaller than rows": the report is taken AFTER the size change (C15.M4)
     from rules import c15
     c15.report_rules(ctx, w, S)
